@@ -119,7 +119,7 @@ func init() {
 		"f addi", "f [", "f zzz", "f a b", "f", "entry", "entry x", "alllines", "alllines 1", "e", "e 1",
 	}, c22Common...)...)
 	em := mk(append([]string{"s 1", "ms", "ms 1", "m memory", "m nokey", "m", "m memory x", "rmod nokey", "rmod"}, c22Common...)...)
-	for _, a := range []string{"5", "0x10", "-1", "", "_", "zz"} {
+	for _, a := range []string{"5", "0x10", "-1", "0xfffffffffffffff0", "", "_", "zz"} {
 		em = append(em, uiLine{"s", []string{a}}, uiLine{"rmod x1", []string{a}}, uiLine{"rmod x5", []string{a, a}})
 	}
 	c22Alpha["emulate"] = em
@@ -179,7 +179,7 @@ func init() {
 	checks["C22"] = eng.Check{
 		Hist:        true,
 		Procs:       12,
-		Rule:        "explicit-state BFS over input-line histories of depth <=3 (thorough 4) from the initial state and 5 non-initial root states (inside the emulator, after emulation steps, inside memory views of an absent and of a written memory, after a move) on 4 programs (a 1-instruction code, a 3-block code with blocks of different sizes, a loop with a gap, a code with blocks of 2, 1 and 2 instructions), through the real UI.processCommand with stdin injected per command; line alphabets per mode: disassembler 43 lines plus, per program, moves between every pair of block header lines, a move of EVERY line onto itself and onto its successor, bounds of every line, and move/bounds/goto on each block's first instruction, emulator 35 lines with prompt answers from {5,0x10,-1,'',_,zz}, memory view 27 lines (blank/space-only lines, missing/extra/non-numeric/negative/huge arguments, out-of-range line numbers, bad regexes, unknown commands, mode switches e, m <key>, q). After every command the composite screen is rendered at heights 24 and 50 as Run does. States are deduplicated by (mode stack, cursors, marks, code order, emulator registers and memory). A line that leaves the observable state unchanged is entered a second time (hidden state left by a failed command). Plus three long walks per program on a single session (600 lines cycling through the alphabet of the current mode; in the third every line is entered twice in a row). Oracle: no panic, the command loop does not fail, q pops exactly one mode. PROC conformance: every single disassembler line (thorough: every pair of disassembler lines and every emulator line after 'entry; e') typed into the real binary under a pseudo-terminal on two programs, followed by quits: no crash, no hang, exit status 0. Non-trivial = history reaching a new state.",
+		Rule:        "explicit-state BFS over input-line histories of depth <=3 (thorough 4) from the initial state and 6 non-initial root states (inside the emulator, after emulation steps, inside memory views of an absent memory, of a written memory and of a memory written in the last window of the address space, after a move) on 4 programs (a 1-instruction code, a 3-block code with blocks of different sizes, a loop with a gap, a code with blocks of 2, 1 and 2 instructions), through the real UI.processCommand with stdin injected per command; line alphabets per mode: disassembler 43 lines plus, per program, moves between every pair of block header lines, a move of EVERY line onto itself and onto its successor, bounds of every line, and move/bounds/goto on each block's first instruction, emulator 35 lines with prompt answers from {5,0x10,-1,0xfffffffffffffff0,'',_,zz}, memory view 27 lines (blank/space-only lines, missing/extra/non-numeric/negative/huge arguments, out-of-range line numbers, bad regexes, unknown commands, mode switches e, m <key>, q). After every command the composite screen is rendered at heights 24 and 50 as Run does. States are deduplicated by (mode stack, cursors, marks, code order, emulator registers and memory). A line that leaves the observable state unchanged is entered a second time (hidden state left by a failed command). Plus three long walks per program on a single session (600 lines cycling through the alphabet of the current mode; in the third every line is entered twice in a row). Oracle: no panic, the command loop does not fail, q pops exactly one mode. PROC conformance: every single disassembler line (thorough: every pair of disassembler lines and every emulator line after 'entry; e') typed into the real binary under a pseudo-terminal on two programs, followed by quits: no crash, no hang, exit status 0. Non-trivial = history reaching a new state.",
 		Assumptions: []string{"every injected input ends with a tail of valid answers so prompts never hit EOF (horizon)", "terminal size is supplied by the harness (heights 24, 50); the system call path is only exercised by C26's pty runs"},
 		Run: func(r *eng.Run) {
 			uix.Discard = true // the oracle does not read the screen text
@@ -206,6 +206,8 @@ func init() {
 					{{Line: "entry"}, {Line: "e"}, {Line: "m nokey"}},
 					{{Line: "entry"}, {Line: "e"}, {Line: "s", Answers: []string{"7"}}, {Line: "s", Answers: []string{"0x2000"}}, {Line: "s"}, {Line: "s"}, {Line: "m memory"}},
 					{{Line: "m 1 2"}, {Line: "g 3"}},
+					// a store into the last 16-byte window of the address space, then its memory view
+					{{Line: "entry"}, {Line: "e"}, {Line: "s", Answers: []string{"7"}}, {Line: "s", Answers: []string{"0xfffffffffffffff0"}}, {Line: "s", Answers: []string{"0xfffffffffffffff0"}}, {Line: "s", Answers: []string{"0xfffffffffffffff0"}}, {Line: "s", Answers: []string{"0xfffffffffffffff0"}}, {Line: "m memory"}},
 				} {
 					if sr, f := c22Replay(c22Case{Prog: p.Name, History: root, Heights: []int{24}}); f == nil && sr != nil && !sr.Quit {
 						if k := sr.StateKey(); !seen[k] {
